@@ -58,7 +58,7 @@ theorem root_lit_out {bs pad : List Nat} {s : PState} {p c0 : Nat} (hat : At bs 
 
 theorem root_num_out {W : Nat} {bs pad : List Nat} {s : PState} {p c : Nat}
     (hat : At bs pad .val s [] p c) (hc : isNumStart c = true) {r : NumOut}
-    (hagr : NumAgrees p bs.length (Number.scanNumber bs p) r)
+    (hagr : NumShape p bs.length r)
     (hr : numOut (Sonic.Model.Number.parseNumber s.buf bs.length p) = r) :
     (∀ v next, r = .ok v next → DoneR bs pad (parsePrimitives W s) next (numNode v)) ∧
     (∀ code pos, r = .err code pos →
@@ -77,18 +77,12 @@ theorem root_num_out {W : Nat} {bs pad : List Nat} {s : PState} {p c : Nat}
     refine ⟨fun v0 next0 h0 => ?_, fun code pos h0 => (by cases h0)⟩
     injection h0 with h01 h02
     subst h01; subst h02
-    cases hsc : Number.scanNumber bs p with
-    | ok v next =>
-      rw [hsc] at hagr
-      obtain ⟨e1, e2, e3, e4⟩ := hagr
-      subst e1; subst e2
-      have hnv : (numNode v).allocs = 0 := by cases v <;> rfl
-      rw [(root_pushed hat.inv (numNode v) hnv).1] at hpp
-      exact ⟨{ s with pos := next, sax := pushed s.sax (numNode v) }, hpp,
-        rootDone_of hat.inv hnv (hat.inv.b.congr rfl rfl rfl (by simp only [hat.pos]; omega))
-          hat.inv.err rfl e4 rfl⟩
-    | infinity next => rw [hsc] at hagr; exact hagr.elim
-    | malformed => rw [hsc] at hagr; exact hagr.elim
+    obtain ⟨e3, e4⟩ : p < next' ∧ next' ≤ bs.length := hagr
+    have hnv : (numNode v').allocs = 0 := by cases v' <;> rfl
+    rw [(root_pushed hat.inv (numNode v') hnv).1] at hpp
+    exact ⟨{ s with pos := next', sax := pushed s.sax (numNode v') }, hpp,
+      rootDone_of hat.inv hnv (hat.inv.b.congr rfl rfl rfl (by simp only [hat.pos]; omega))
+        hat.inv.err rfl e4 rfl⟩
   | err code pos =>
     rw [hpn] at hpp hr
     simp only at hpp
@@ -97,11 +91,7 @@ theorem root_num_out {W : Nat} {bs pad : List Nat} {s : PState} {p c : Nat}
     refine ⟨fun v0 next0 h0 => (by cases h0), fun code0 pos0 h0 => ?_⟩
     injection h0 with h01 h02
     subst h01; subst h02
-    have hcd : code = 3 ∨ code = 2 := by
-      cases hsc : Number.scanNumber bs p with
-      | ok v next => rw [hsc] at hagr; exact hagr.elim
-      | infinity next => rw [hsc] at hagr; exact Or.inl hagr
-      | malformed => rw [hsc] at hagr; exact Or.inr hagr
+    have hcd : code = 3 ∨ code = 2 := hagr
     refine ⟨fun h3 => ?_, fun h3 => ?_⟩
     · subst h3
       simp only [Sonic.Model.Number.errInfinity, kParseErrorInfinity, if_true] at hpp
@@ -169,7 +159,7 @@ theorem root_lit_rel {s1 s2 : PState} {p c0 : Nat}
   · exact .of_exitsR (z1 hm) (z2 hm) (by decide) e1 e2
 
 /-- **the two runs at the root value, when it is not a container** -/
-theorem root_rel (ctx1 : Ctx W1 bs pad1) (ctx2 : Ctx W2 bs pad2) (hnum : NumberCorrectOn bs)
+theorem root_rel (ctx1 : Ctx W1 bs pad1) (ctx2 : Ctx W2 bs pad2) (hnum : NumberOK bs)
     {s1 s2 : PState} {p c : Nat} (a1 : At bs pad1 .val s1 [] p c) (a2 : At bs pad2 .val s2 [] p c)
     {t1 t2 : PState} (e1 : parsePrimitives W1 s1 = .ok t1) (e2 : parsePrimitives W2 s2 = .ok t2) :
     ExitRel W1 W2 bs pad1 pad2 t1 t2 := by
@@ -178,7 +168,7 @@ theorem root_rel (ctx1 : Ctx W1 bs pad1) (ctx2 : Ctx W2 bs pad2) (hnum : NumberC
   by_cases hn : isNumStart c = true
   · obtain ⟨_, _, h3, _⟩ := isNumStart_ne hn
     obtain ⟨hp, hbp⟩ := a1.lt_of_ne h3
-    obtain ⟨r, hagr, hr⟩ := hnum p c hp hbp hn
+    obtain ⟨r, hagr, hr⟩ := hnum.shape hp hbp hn
     have o1 := root_num_out (W := W1) a1 hn hagr (hr pad1 s1.buf ctx1.hlen ctx1.hpad ⟨a1.inv.b.blen, a1.suf⟩)
     have o2 := root_num_out (W := W2) a2 hn hagr (hr pad2 s2.buf ctx2.hlen ctx2.hpad ⟨a2.inv.b.blen, a2.suf⟩)
     cases r with
@@ -261,7 +251,7 @@ theorem root_rel (ctx1 : Ctx W1 bs pad1) (ctx2 : Ctx W2 bs pad2) (hnum : NumberC
 /-! ## `parseImpl` -/
 
 /-- **the two runs of `parseImpl`** return related states -/
-theorem parseImpl_rel (ctx1 : Ctx W1 bs pad1) (ctx2 : Ctx W2 bs pad2) (hnum : NumberCorrectOn bs)
+theorem parseImpl_rel (ctx1 : Ctx W1 bs pad1) (ctx2 : Ctx W2 bs pad2) (hnum : NumberOK bs)
     {raw1 raw2 : List (Option Node)} (hraw1 : raw1.length = setUpCap bs.length)
     (hraw2 : raw2.length = setUpCap bs.length) {t1 t2 : PState}
     (e1 : parseImpl W1 (initState bs pad1 raw1) = .ok t1) (e2 : parseImpl W2 (initState bs pad2 raw2) = .ok t2) :
@@ -315,22 +305,6 @@ def FinalRel (W1 W2 : Nat) (bs : List Nat) (e1 p1 e2 p2 : Nat) : Prop :=
   (W1 ≠ W2 ∧ ∃ q, BadLit bs q ∧ q < p1 ∧ q < p2 ∧ (e1 = 2 ∨ e1 = 4 ∨ e1 = 5 ∨ e1 = 6) ∧
     (e2 = 2 ∨ e2 = 4 ∨ e2 = 5 ∨ e2 = 6))
 
-theorem parserParse_unfold {W : Nat} {bs pad : List Nat} {raw : List (Option Node)} {s1 : PState}
-    (h1 : parseImpl W (initState bs pad raw) = .ok s1) :
-    parserParse W (paddedBuf bs pad) bs.length (Sax.setUp bs.length raw) =
-      (match (if s1.err = kErrorNone then
-          match hasTrailingChars s1.buf s1.len (s1.len + 1) s1.pos with
-          | .error e => .error e
-          | .ok (pos, true) => .ok { s1 with pos := pos, err := kParseErrorInvalidChar }
-          | .ok (pos, false) => .ok { s1 with pos := pos }
-        else .ok s1 : Except Fault PState) with
-      | .error e => .error e
-      | .ok s => .ok (if s.pos > s.len then { s with pos := s.len } else s)) := by
-  unfold parserParse
-  unfold initState at h1
-  simp only [h1]
-  rfl
-
 theorem parserParse_impl {W : Nat} {bs pad : List Nat} {raw : List (Option Node)} {u : PState}
     (h : parserParse W (paddedBuf bs pad) bs.length (Sax.setUp bs.length raw) = .ok u) :
     ∃ s1, parseImpl W (initState bs pad raw) = .ok s1 := by
@@ -354,7 +328,7 @@ theorem parserParse_done {W : Nat} {bs pad : List Nat} {raw : List (Option Node)
     (bs.length + 1) s1.pos (Json.skipWs bs bs.length e) (Nat.le_refl _) (by rw [hd.pos]; exact t1) t2
     (fun j hj hjq => t3 j (by rw [← hd.pos]; exact hj) hjq) t4 (by omega)
   have herr : s1.err = kErrorNone := hd.err
-  rw [parserParse_unfold h1, if_pos herr, hd.b.len, htr] at hu
+  rw [parserParse_eq h1, if_pos herr, hd.b.len, htr] at hu
   by_cases hlt : Json.skipWs bs bs.length e < bs.length
   · simp only [hlt, decide_true, gt_iff_lt] at hu
     rw [if_neg (by omega)] at hu
@@ -372,7 +346,7 @@ theorem parserParse_err {W : Nat} {bs pad : List Nat} {raw : List (Option Node)}
     (h1 : parseImpl W (initState bs pad raw) = .ok s1) (hne : s1.err ≠ 0) (hlen : s1.len = bs.length)
     (hu : parserParse W (paddedBuf bs pad) bs.length (Sax.setUp bs.length raw) = .ok u) :
     u.err = s1.err ∧ u.pos = (if s1.pos > bs.length then bs.length else s1.pos) := by
-  rw [parserParse_unfold h1, if_neg (by simp only [kErrorNone]; exact hne)] at hu
+  rw [parserParse_eq h1, if_neg (by simp only [kErrorNone]; exact hne)] at hu
   simp only at hu
   injection hu with hu
   subst hu
@@ -383,25 +357,34 @@ theorem badLit_lt {bs : List Nat} {q : Nat} (h : BadLit bs q) : q < bs.length :=
   (List.getElem?_eq_some_iff.mp h.1).1
 
 /-- `parseImpl` keeps `len_` -/
-theorem parseImpl_len {W : Nat} {bs pad : List Nat} (ctx : Ctx W bs pad) (hnum : NumberCorrectOn bs)
+theorem parseImpl_len {W : Nat} {bs pad : List Nat} (ctx : Ctx W bs pad) (hnum : NumberOK bs)
     {raw : List (Option Node)} (hraw : raw.length = setUpCap bs.length) {s1 : PState}
     (h1 : parseImpl W (initState bs pad raw) = .ok s1) : s1.len = bs.length := by
   have hI := parseImpl_spec ctx hnum hraw
+  have hdoomed : RootDoomed bs pad (parseImpl W (initState bs pad raw)) → s1.len = bs.length := by
+    intro hd
+    rcases hd with ⟨s', node, next, h', hdone, _⟩ | ⟨s', h', hfin⟩
+    · rw [h1] at h'; injection h' with h'; subst h'
+      exact hdone.b.len
+    · rw [h1] at h'; injection h' with h'; subst h'
+      exact hfin.len
   cases hv : Json.parseValue bs (2 * bs.length + 2) (Json.skipWs bs bs.length 0) with
   | error e =>
     rw [hv] at hI
-    obtain ⟨s', h', hfin⟩ := hI
-    rw [h1] at h'; injection h' with h'; subst h'
-    exact hfin.len
+    rcases hI with ⟨s', h', hfin⟩ | hd
+    · rw [h1] at h'; injection h' with h'; subst h'
+      exact hfin.len
+    · exact hdoomed hd
   | ok x =>
     obtain ⟨v, next⟩ := x
     rw [hv] at hI
-    obtain ⟨s', node, h', hdone, _⟩ := hI
-    rw [h1] at h'; injection h' with h'; subst h'
-    exact hdone.b.len
+    rcases hI with ⟨s', node, h', hdone, _⟩ | ⟨_, hd⟩
+    · rw [h1] at h'; injection h' with h'; subst h'
+      exact hdone.b.len
+    · exact hdoomed hd
 
 /-- **the two runs of `Parser::Parse`** -/
-theorem parserParse_rel (ctx1 : Ctx W1 bs pad1) (ctx2 : Ctx W2 bs pad2) (hnum : NumberCorrectOn bs)
+theorem parserParse_rel (ctx1 : Ctx W1 bs pad1) (ctx2 : Ctx W2 bs pad2) (hnum : NumberOK bs)
     {raw1 raw2 : List (Option Node)} (hraw1 : raw1.length = setUpCap bs.length)
     (hraw2 : raw2.length = setUpCap bs.length) {u1 u2 : PState}
     (e1 : parserParse W1 (paddedBuf bs pad1) bs.length (Sax.setUp bs.length raw1) = .ok u1)
@@ -470,7 +453,7 @@ theorem parseDoc_root {W : Nat} {pad bs : List Nat} {raw : List (Option Node)} {
 
 /-- **the two runs of a successful `GenericDocument::Parse` build the same root node** (same tree, same string
     offsets and lengths) -/
-theorem parseDoc_root_rel (ctx1 : Ctx W1 bs pad1) (ctx2 : Ctx W2 bs pad2) (hnum : NumberCorrectOn bs)
+theorem parseDoc_root_rel (ctx1 : Ctx W1 bs pad1) (ctx2 : Ctx W2 bs pad2) (hnum : NumberOK bs)
     {raw1 raw2 : List (Option Node)} (hraw1 : raw1.length = setUpCap bs.length)
     (hraw2 : raw2.length = setUpCap bs.length) {d1 d2 : Doc} {r1 r2 : Result}
     (e1 : parseDoc W1 pad1 raw1 d1 bs = .ok r1) (e2 : parseDoc W2 pad2 raw2 d2 bs = .ok r2) (hok : r1.err = 0) :
@@ -503,7 +486,7 @@ theorem parseDoc_root_rel (ctx1 : Ctx W1 bs pad1) (ctx2 : Ctx W2 bs pad2) (hnum 
 
 /-- **the two runs of `GenericDocument::Parse`**: same error code and offset, except possibly — for different vector
     widths — when both fail inside the same malformed string literal -/
-theorem parseDoc_rel (ctx1 : Ctx W1 bs pad1) (ctx2 : Ctx W2 bs pad2) (hnum : NumberCorrectOn bs)
+theorem parseDoc_rel (ctx1 : Ctx W1 bs pad1) (ctx2 : Ctx W2 bs pad2) (hnum : NumberOK bs)
     {raw1 raw2 : List (Option Node)} (hraw1 : raw1.length = setUpCap bs.length)
     (hraw2 : raw2.length = setUpCap bs.length) {d1 d2 : Doc} {r1 r2 : Result}
     (e1 : parseDoc W1 pad1 raw1 d1 bs = .ok r1) (e2 : parseDoc W2 pad2 raw2 d2 bs = .ok r2) :
